@@ -502,7 +502,10 @@ def gen_op(r, w, i):
             t = '@namespace r "u4";'  # a default namespace declared after unprefixed selectors exist is C15's recorded finding
         return {"op": k, "text": t}
     if k == "insert":
-        return {"op": k, "text": rule(r, r.choice(["style", "comment", "unknown", "media"])), "index": r.randrange(0, 8)}
+        t = rule(r, r.choice(["style", "comment", "unknown", "media", "fontface", "page", "import", "namespace", "fontface"]))
+        if t.startswith('@namespace "'):
+            t = '@namespace r "u4";'  # (as for add)
+        return {"op": k, "text": t, "index": r.randrange(0, 8)}
     if k == "delete":
         return {"op": k, "index": r.randrange(0, 8)}
     if k == "media_add":
